@@ -215,8 +215,9 @@ fn sequential(p: &Program, out: &mut BTreeSet<String>) {
 fn run_program(p: &Program) {
     if p.mode == "stress" {
         // free-running OS threads (no scheduler): used where the interleavings are the kernel's (PhysicalFS)
-        let rounds: usize = p.arg.parse().unwrap_or(100);
+        let rounds: usize = p.arg.split(',').next().and_then(|x| x.parse().ok()).unwrap_or(100);
         let mut bad = 0;
+        let mut seen: BTreeSet<String> = BTreeSet::new();
         for round in 0..rounds {
             let mut base = build(p);
             let n = p.threads.len();
@@ -247,14 +248,26 @@ fn run_program(p: &Program) {
             let snap = final_snap(&mut base);
             base.cleanup();
             let all_ok = res.iter().all(|t| t.iter().all(|r| r.starts_with("ok")));
-            if !all_ok || round == 0 {
-                println!("run {} stress{} labels - :: {} || {}", p.name, round, fmt_results(&res), snap);
+            // every DISTINCT outcome is reported (so that it can be judged against the sequential orders), and every failing round
+            let line = format!("{} || {}", fmt_results(&res), snap);
+            let fresh = seen.insert(line.clone());
+            if !all_ok || fresh {
+                println!("run {} stress{} labels - :: {}", p.name, round, line);
             }
             if !all_ok {
                 bad += 1;
             }
         }
-        println!("done {} runs={} exhaustive=false sequential_orders=0 failed_rounds={}", p.name, rounds, bad);
+        let mut nseq = 0;
+        if p.arg.contains(",seq") {
+            let mut seqs = BTreeSet::new();
+            sequential(p, &mut seqs);
+            for s in &seqs {
+                println!("seq {} {}", p.name, s);
+            }
+            nseq = seqs.len();
+        }
+        println!("done {} runs={} exhaustive=false sequential_orders={} failed_rounds={}", p.name, rounds, nseq, bad);
         return;
     }
     if p.mode == "replay" {
